@@ -183,3 +183,83 @@ def partition_graph(prop):
                 ("mapping.update({node_idx: idx for node_idx in node_idxs})", "mapping.update({node_idx: 0 for node_idx in node_idxs})"),
                 ("new_graph.add_edge(new_idx, new_jdx, **edge_attrs)", "new_graph.add_edge(new_idx, new_idx, **edge_attrs)")],
     )
+
+
+# ------------------------------------------------------------------ _items_with_common_values: what a residue node is given
+GAttr = TKey('GAttr')
+AttrMap = TMap(GAttr, GVal)
+
+
+def setup_common(cx):
+    from pyvc.builtins import make_iter
+    NODESET = cx.val('NODESET', TSet(GNode))               # the atoms of the (sub)graph
+    cx.spec_env['NODESET'] = NODESET
+    attrs_of = cx.uf('attrs_of', [GNode], AttrMap)         # graph.nodes[idx]: the attribute dictionary of an atom
+    n = z3.Const('n', GNode.sort())
+    cx.assume(z3.ForAll([n], AttrMap.inv(attrs_of(n))))
+    excl = cx.val('EXCL', TSet(GAttr))
+    cx.spec_env['EXCL'] = excl
+    nodes = Obj('NodeView', __getitem__=Builtin(lambda e, k: SV(AttrMap, attrs_of(to_z3(k, GNode))), 'graph.nodes[]'))
+    nodes.__dict__['iter'] = NODESET
+    graph = Obj('Graph', nodes=nodes)
+
+    def aae(e, lst):
+        # utils.are_all_equal by its contract (proved under C17 for a list): all elements equal the first
+        ty = TSeq(GVal)
+        le = to_z3(lst, ty)
+        k = z3.FreshInt('ak')
+        return wrap(TBool, z3.ForAll([k], z3.Implies(z3.And(0 <= k, k < ty.len(le)), ty.at(le, k) == ty.at(le, 0))))
+    cx.spec_env['are_all_equal'] = Builtin(aae, 'are_all_equal')
+    return dict(graph=graph, nodes=None, excluded_keys=excl)
+
+
+SPEC_COMMON = {
+    'has': "lambda n, k: k in attrs_of(n)",
+    'aval': "lambda n, k: attrs_of(n)[k]",
+    # every atom seen so far (places < i of the enumeration) has the attribute
+    'all_have': "lambda k, i: forall(lambda n: implies(n in NODESET and _posL1(n) < i, has(n, k)), GNode)",
+    'clen': "lambda C, k: len(C[k]) if k in C else 0",
+}
+COMMON_INV = [
+    # a key is collected once an atom has it (and it is not excluded); it holds one value per atom that has it
+    "forall(lambda k: implies(k in common_attrs, not (k in EXCL) and 1 <= len(common_attrs[k]) and len(common_attrs[k]) <= {I}), GAttr)",
+    "forall(lambda k, n: implies(n in NODESET and _posL1(n) < {I} and has(n, k) and not (k in EXCL), k in common_attrs), GAttr, GNode)",
+    # as many values as atoms exactly when every atom so far has it - and then the values are the atoms' values, in order
+    "forall(lambda k: implies(k in common_attrs and len(common_attrs[k]) == {I}, all_have(k, {I}) and "
+    "   forall(lambda j: implies(0 <= j and j < {I}, common_attrs[k][j] == aval(_itL1(j), k)))), GAttr)",
+    "forall(lambda k: implies(k in common_attrs and len(common_attrs[k]) < {I}, not all_have(k, {I})), GAttr)",
+]
+
+
+def items_with_common_values(prop):
+    return FunctionContract(
+        F, '_items_with_common_values', prop, setup=setup_common, spec_defs=SPEC_COMMON,
+        spec_env=dict(GNode=GNode, GAttr=GAttr, GVal=GVal),
+        locals=dict(common_attrs=TMap(GAttr, TSeq(GVal)), g_C=TMap(GAttr, TSeq(GVal))),
+        requires=["exists(lambda n: n in NODESET, GNode)"],      # a residue has at least one atom
+        ensures=[
+            # the result holds exactly the attributes, other than the excluded ones, that every atom has with one and the same
+            # value - and that value
+            "forall(lambda k: implies(k in result, not (k in EXCL) and forall(lambda n: implies(n in NODESET, has(n, k)), GNode) and "
+            "   forall(lambda n, m: implies(n in NODESET and m in NODESET, aval(n, k) == aval(m, k)), GNode, GNode)), GAttr)",
+            "forall(lambda k: implies(not (k in EXCL) and forall(lambda n: implies(n in NODESET, has(n, k)), GNode) and "
+            "   forall(lambda n, m: implies(n in NODESET and m in NODESET, aval(n, k) == aval(m, k)), GNode, GNode), k in result), GAttr)",
+            "forall(lambda k, n: implies(k in result and n in NODESET, result[k] == aval(n, k)), GAttr, GNode)",
+        ],
+        loops={
+            'L1': LoopSpec(inv=[x.format(I='_i') for x in COMMON_INV], modifies=['common_attrs']),
+            'L1.1': LoopSpec(inv=[
+                # the attributes of this atom handled so far added one value each; everything else is as before this atom
+                "forall(lambda k: implies(has(_itL1(_iL1), k) and posof(attrs_of(_itL1(_iL1)), k) < _i and not (k in EXCL), "
+                "   k in common_attrs and len(common_attrs[k]) == clen(g_C, k) + 1 and "
+                "   common_attrs[k][clen(g_C, k)] == aval(_itL1(_iL1), k) and "
+                "   forall(lambda q: implies(0 <= q and q < clen(g_C, k), common_attrs[k][q] == g_C[k][q]))), GAttr)",
+                "forall(lambda k: implies(not (has(_itL1(_iL1), k) and posof(attrs_of(_itL1(_iL1)), k) < _i and not (k in EXCL)), "
+                "   (k in common_attrs) == (k in g_C) and implies(k in g_C, len(common_attrs[k]) == len(g_C[k]) and "
+                "   forall(lambda q: implies(0 <= q and q < len(g_C[k]), common_attrs[k][q] == g_C[k][q])))), GAttr)"],
+                modifies=['common_attrs'], ghost_init="g_C = dict(common_attrs)"),
+        },
+        canary=[("if len(vals) == len(nodes) and are_all_equal(vals)}", "if are_all_equal(vals)}"),
+                ("if key not in excluded_keys:", "if key in excluded_keys:"),
+                ("common_attrs[key].append(val)", "common_attrs[key] = [val]")],
+    )
